@@ -13,6 +13,7 @@ import (
 	"fmt"
 	"github.com/ogen-go/ogen/middleware"
 	"hash/fnv"
+	"io"
 	"net/http"
 	"net/http/httptest"
 	"os"
@@ -21,6 +22,7 @@ import (
 	"regexp"
 	"runtime"
 	"sort"
+	"strings"
 	"sync"
 	"sync/atomic"
 	"testing"
@@ -171,7 +173,19 @@ func concPackage(u *vk.Unit, p *reg.Package, meta Meta, pkg string) {
 		result string
 		errc   string
 	}
+	// pools without single-use values (a response that carries an io.Reader can be read once: two calls that
+	// are answered with the same value would race in the HARNESS); used by the cold run below
+	coldPools := map[string][]any{}
+	for name, pool := range pools {
+		for _, v := range pool {
+			if !holdsReader(reflect.ValueOf(v), 0) {
+				coldPools[name] = append(coldPools[name], v)
+			}
+		}
+	}
+	activePools := pools
 	run := func(goroutines, procs int) ([]outcome, []string, error) {
+		pools := activePools
 		var mu sync.Mutex
 		var received []string
 		call := securityAware(p, func(ctx context.Context, iface, method string, args []any) ([]any, error) {
@@ -272,6 +286,29 @@ func concPackage(u *vk.Unit, p *reg.Package, meta Meta, pkg string) {
 		sort.Strings(received)
 		return outs, received, nil
 	}
+	// cold start: for every second package the FIRST use of the generated code in this process is a
+	// concurrent one (whatever the package initialises lazily is initialised by 16 goroutines at once).
+	// Only what needs no reference is judged there (the race detector watches, a panic is a panic): the
+	// sequential reference runs afterwards.
+	hp := fnv.New32a()
+	hp.Write([]byte(pkg))
+	if hp.Sum32()%2 == 0 {
+		activePools = coldPools
+		coldOuts, _, err := run(16, 16)
+		activePools = pools
+		if err != nil {
+			u.T.Fatalf("cold concurrent run: %v", err)
+		}
+		u.Label("cold-start-concurrent-first")
+		u.Eval(len(calls))
+		for i := range calls {
+			if strings.HasPrefix(coldOuts[i].errc, "panic:") {
+				u.Report(vk.F("concurrent-panic", "%s call %d (%s%s): panics when the first use of the package is concurrent: %s", pkg, i, calls[i].cm, renderValues(calls[i].args), trim(coldOuts[i].errc, 400)),
+					ConcCase{Doc: meta.Doc, TimeFormat: meta.TimeFormat, Seed: seed, Goroutines: 16, Procs: 16, Call: i})
+				break
+			}
+		}
+	}
 	seq, seqRecv, err := run(1, 0)
 	if err != nil {
 		u.T.Fatalf("sequential run: %v", err)
@@ -344,6 +381,38 @@ func concPackage(u *vk.Unit, p *reg.Package, meta Meta, pkg string) {
 		}
 	}
 	u.Sample(map[string]any{"package": pkg, "calls": len(calls), "operations": len(pools), "first_call": calls[0].cm + renderValues(calls[0].args)})
+}
+
+// holdsReader: the value is or contains (struct fields, pointers, slices, interfaces) an io.Reader.
+func holdsReader(v reflect.Value, depth int) bool {
+	if !v.IsValid() || depth > 6 {
+		return false
+	}
+	if v.CanInterface() {
+		if _, ok := v.Interface().(io.Reader); ok {
+			return true
+		}
+	}
+	switch v.Kind() {
+	case reflect.Pointer, reflect.Interface:
+		if v.IsNil() {
+			return false
+		}
+		return holdsReader(v.Elem(), depth+1)
+	case reflect.Struct:
+		for i := 0; i < v.NumField(); i++ {
+			if v.Type().Field(i).IsExported() && holdsReader(v.Field(i), depth+1) {
+				return true
+			}
+		}
+	case reflect.Slice, reflect.Array:
+		for i := 0; i < v.Len() && i < 8; i++ {
+			if holdsReader(v.Index(i), depth+1) {
+				return true
+			}
+		}
+	}
+	return false
 }
 
 func renderValues(vs []reflect.Value) string {
